@@ -41,6 +41,7 @@ type C02Case struct {
 }
 
 var seededACS = []string{
+	"https://seed.example/acs?tenant=42&region=eu&copy=1", "https://seed.example/acs?x=&amp;lt;y",
 	"https://seed.example/acs", "https://seed.example/acs?a=1&b=2", "https://seed.example/acs?q=\"x\"&r='y'", "https://seed.example/ä/ö?<tag>", "https://seed.example/acs#frag",
 	"https://seed.example/a b", "https://seed.example/%41%2F?x=%26",
 }
@@ -100,7 +101,7 @@ func genC02Case(t *rapid.T) C02Case {
 		s.Tr.Extra = extra()
 		if rapid.IntRange(0, 3).Draw(t, "withdefect") == 0 {
 			d := pick(t, "defect", c08DefectCatalogue)
-			if (d.Name == "bad-deflate" || d.Name == "sigalg-without-signature") && s.Tr.Binding != "redirect" {
+			if d.Name == "bad-deflate" && s.Tr.Binding != "redirect" {
 				s.Tr.Binding = "redirect"
 			}
 			s.Defects = []Defect{d}
@@ -143,7 +144,7 @@ func genC02Case(t *rapid.T) C02Case {
 		seed := world.RequestSpec{
 			ID: "seeded-1", AppID: spec.SPs[s.SP].AppID, RelayState: rapid.SampledFrom(relayStates[1:]).Draw(t, "srs"),
 			ACS: rapid.SampledFrom(seededACS).Draw(t, "sacs"), Binding: rapid.SampledFrom([]string{world.BindPost, world.BindRedirect}).Draw(t, "sbinding"),
-			AuthRequestID: genID(t, "sreqid"), UserID: "uid-0", Done: rapid.IntRange(0, 3).Draw(t, "sdone") != 0,
+			AuthRequestID: genID(t, "sreqid"), UserID: rapid.SampledFrom([]string{"uid-0", "uid-0", "uid-big"}).Draw(t, "suser"), Done: rapid.IntRange(0, 3).Draw(t, "sdone") != 0,
 		}
 		c.Seed = &seed
 		c.CBExtra = extra()
@@ -279,6 +280,10 @@ func c02Run(c C02Case) c02Result {
 	spec := s.Spec
 	if c.Seed != nil {
 		spec.Requests = append(append([]world.RequestSpec(nil), spec.Requests...), *c.Seed)
+		big := stdUser(7)
+		big.UserID, big.LoginName = "uid-big", "loginbig@users.example"
+		big.Custom = append(big.Custom, world.CustomAttr{Name: "groups", Values: bigValues(300, "c02")})
+		spec.Users = append(append([]world.UserSpec(nil), spec.Users...), big)
 	}
 	if s.PersistFault {
 		spec.Faults = append(append([]world.Fault(nil), spec.Faults...), world.Fault{Op: "CreateAuthRequest", Kind: "error"})
